@@ -634,7 +634,7 @@ def all_jobs(tier):
     for op in ARG_OPS:
         yield ('hist', op, 3 if tier == 'quick' else 5, 'args')
     for op in COMPILE_OPS:
-        yield ('hist', op, 3 if tier == 'quick' else 5, 'compile')
+        yield ('hist', op, 3 if tier == 'quick' else 4, 'compile')
     for op in PAIR_OPS:
         yield ('pair', op, 4 if tier == 'quick' else 5)
     for text in ('xx', 'xyx', 'x x', 'xx!'):
@@ -672,7 +672,7 @@ def run(tier, seed):
     chk.rule = ('one grammar (classes, ignore, template, inline-Python callback, error paths): (i) ALL histories of length <= 3 (thorough 4) '
                 'over 18 operations (9 parse calls with different texts / offsets / entry rules / fullparse, a call abandoned by a raising '
                 'callback, building another grammar, building a grammar that reuses the name, building a grammar that extends it and adds an ignore, 3 calls through that derived grammar), each '
-                'replayed on a freshly built module, all histories of length <= 5 (6) over the 5 operations that build, rebuild under the same name and use grammars, all histories of length <= 3 (5) over 7 operations around a parameterised class entry requested with equal but distinguishable arguments (1, True, 1.0, [1], [True]) and over 9 operations around compilations (a grammar full of `| Fail()` choices, 4 rejected descriptions, the scenario description compiled again: same generated text and failure report; interpreter settings unchanged after every operation), plus all histories of length <= 4 (5) over 6 calls through a base grammar without ignore and a derived grammar with one; (ii) ALL thread interleavings with <= 1 preemption of every pair of 8 call bodies (incl. '
+                'replayed on a freshly built module, all histories of length <= 5 (6) over the 5 operations that build, rebuild under the same name and use grammars, all histories of length <= 3 (5; compilations 4) over 7 operations around a parameterised class entry requested with equal but distinguishable arguments (1, True, 1.0, [1], [True]) and over 9 operations around compilations (a grammar full of `| Fail()` choices, 4 rejected descriptions, the scenario description compiled again: same generated text and failure report; interpreter settings unchanged after every operation), plus all histories of length <= 4 (5) over 6 calls through a base grammar without ignore and a derived grammar with one; (ii) ALL thread interleavings with <= 1 preemption of every pair of 8 call bodies (incl. '
                 'failing and raising ones) and of a parse against a concurrent Grammar() construction, <= 2 preemptions on reduced pairs '
                 '(thorough: 3 threads, opcode granularity), scheduling points = line events of the generated module under a baton '
                 'scheduler; (iii) EVERY single deviation (nested parse discarded / embedded x 7 calls, raise) at every inline-Python '
